@@ -9,6 +9,7 @@ mod c20;
 mod gen;
 mod maggen;
 mod magpipe;
+mod magid;
 mod magstages;
 mod pipeline;
 mod s13;
@@ -74,6 +75,7 @@ fn main() {
             let handled = handled || c20::dispatch(&args, seed);
             let handled = handled || magpipe::dispatch(&args, seed);
             let handled = handled || magstages::dispatch(&args, seed);
+            let handled = handled || magid::dispatch(&args, seed);
             let handled = handled || s5::dispatch(&args, seed);
             let handled = handled || s6::dispatch(&args, seed);
             if !handled {
